@@ -105,9 +105,8 @@ def cmdReadUrl (ov pa sh : String) (rest : List String) : String :=
   match optName? ov, optName? pa, shape? sh, parseTables rest {} with
   | some ov, some pa, some sh, some t =>
     match readUrl (mkWorld t) sh ov pa with
-    | .error e => "ERR " ++ showErr e
-    | .ok none => "NONE"
-    | .ok (some r) => "OK " ++ encCps r.encoding ++ " " ++ toString r.enctype ++ " " ++ showOpt r.text
+    | none => "NONE"
+    | some r => "OK " ++ encCps r.encoding ++ " " ++ toString r.enctype ++ " " ++ showOpt r.text
   | _, _, _, _ => "bad-op"
 
 def cmdLoad (mode fuel enc href : String) (rest : List String) : String :=
